@@ -8,12 +8,19 @@ python3 - <<'PY'
 import sys
 sys.path.insert(0, "bin/lib")
 import vlib
+import glob, os, re
 vlib.gen_constants()
-cmd, dt = vlib.coq_make(None, timeout=7200)
-print("coq build ok in %.0fs" % dt)
-import glob, os
-for d in sorted(glob.glob("harness/cmd/*")):
-    vlib.build_go(os.path.basename(d))
+enabled = open("checks.d/enabled.txt").read().split()
+targets = set()
+for pid in enabled:
+    targets.add("theories/Props/%s.vo" % pid)
+    targets.update(re.findall(r'theories/[A-Za-z0-9_/]+\.vo', open("props/%s.py" % pid).read()))
+cmd, dt = vlib.coq_make(sorted(targets), timeout=7200)
+print("coq build ok in %.0fs (%d targets)" % (dt, len(targets)))
+for pid in enabled:
+    for c in set(re.findall(r'build_go\(\s*"(\w+)"', open("props/%s.py" % pid).read())) | {pid.lower()}:
+        if os.path.isdir("harness/cmd/" + c):
+            vlib.build_go(c)
 print("harness built")
 PY
 sh bin/audit.sh
